@@ -156,7 +156,8 @@ def Doc.putInObject (d : Doc) (parent : Ts) (key : String) (v : JVal) (ts : Ts) 
         if (d1.timeOf oldC).cmp newC == .lt then
           let size' := if d1.isTomb oldC then size + 1 else size
           let d2 := d1.set { pn with kind := .obj (alSet key newC m) size' }
-          .ok (d2.funeral oldC newC, some oldC)
+          -- the displaced occupant is reported unless it was deleted before (then the key was empty)
+          .ok (d2.funeral oldC newC, if d1.isTomb oldC then none else some oldC)
         else
           .ok (d1.funeral newC oldC, some newC)
 
